@@ -414,7 +414,7 @@ long long c_accumulate(long long nrows, long long ncols,
 
     for(i=0; i<ntot; i++)
     {
-        if(i%nprint == 0)
+        if(nprint > 0 && i%nprint == 0)
             fprintf(stdout, "\t\tCompleted accumulation ... %0.1f%%\n",
                 100*(double)(i)/(double)(ntot));
 
@@ -596,7 +596,7 @@ long long c_slope(long long nrows,
 
     for(i=0; i<ntot; i++)
     {
-        if(i%nprint == 0)
+        if(nprint > 0 && i%nprint == 0)
             fprintf(stdout, "\t\tCompleted slope calculation ... %0.1f%%\n",
                 100*(double)(i)/(double)(ntot));
 
